@@ -121,12 +121,16 @@ class InducingPointKernel(Kernel):
 
     def __deepcopy__(self, memo):
         # The cached kernel matrix / inverse root are (non-leaf) tensors that cannot be deep-copied: the copy shares them.
+        # The added loss term of the last training-mode call carries a graph as well: the copy starts without one
+        # (as after construction; the next training-mode call computes it).
         # Everything else (parameters, priors, constraints, flags) is copied the default way.
         cp = self.__class__.__new__(self.__class__)
         memo[id(self)] = cp
         for name, value in self.__dict__.items():
             if name in ("_cached_kernel_inv_root", "_cached_kernel_mat"):
                 cp.__dict__[name] = value
+            elif name == "_added_loss_terms":
+                cp.__dict__[name] = type(value)((key, None) for key in value)
             else:
                 cp.__dict__[name] = copy.deepcopy(value, memo)
         return cp
